@@ -313,6 +313,7 @@ LEVEL_TEXT = ("Generated histories, 400 / 5,000 sequences of 4..14 calls over 30
               "arguments, in-process for all histories and in a fresh interpreter for a drawn share (1 in 10 / 1 in "
               "4); returned objects are overwritten after recording so hidden sharing or caching surfaces later; "
               "each call that accepts verbose is repeated with the flag flipped. It samples interleavings; it does "
-              "not enumerate them.")
+              "not enumerate them."
+              ' 96 / 960 concurrent schedules (2..3 jobs with their own arguments in threads) must reproduce the sequential results.')
 LEVEL_NOTE = ("Trusted: the JSON normalisation of results; 'fresh process' is realised per history, not per call; "
               "remove_nasty_arc is only run on caller-owned fresh objects.")
